@@ -58,7 +58,7 @@ def run(ctx):
     exe, model = build(ctx)
     pr = ctx.proofs("c04", "C04Theorems.v")
     # ---- correspondence
-    n = ctx.n(3000, 60000)
+    n = ctx.n(3000, 100000)
     exh = ctx.n(3, 3)
     rc, cases, e = harness(exe, ["corr", "-seed", ctx.seed, "-n", n, "-exh", exh], 3000)
     if rc != 0:
@@ -87,7 +87,7 @@ def run(ctx):
     ctx.cov["samples"] += [l[:300] for l in lines[:2]] + [l[:300] for l in lines[len(lines) // 2:len(lines) // 2 + 2]] + [l[:300] for l in lines[-2:]]
     ctx.log("correspondence: %d cases (%s), %d mismatches, %d direct failures" % (len(lines), kinds, len(mism), len(fails)))
     # ---- search: mutation fuzzing of the testdata
-    ns = ctx.n(12000, 400000)
+    ns = ctx.n(12000, 1000000)
     rc, so, e = harness(exe, ["search", "-seed", ctx.seed, "-n", ns], 6000)
     if rc != 0:
         raise common.CheckError("harness search failed rc=%s: %s" % (rc, e[-1000:]))
@@ -122,7 +122,7 @@ def run(ctx):
     ctx.cov["rule"] = ("corr: reader op histories, mutated box trees on both paths, all shape lists up to length %d x options; "
                        "distinct = distinct case lines (input + observables); search: structured mutants of every testdata file "
                        "(truncation at box boundaries +-1, 32/64-bit size corruption, count inflation, version/flags, removal, "
-                       "duplication, swap, byte corruption) through decode x options, Info x3, both encoders x2 modes, and of every "
+                       "duplication, swap, byte corruption, type confusion = the same bytes under every other registered box type, splice = boxes harvested from all testdata files inserted into containers) through decode x options, Info x3, both encoders x2 modes, and of every "
                        "harvested box through DecodeBox/DecodeBoxSR/Info/Encode; classes ok|err|panic|hang|overalloc" % exh)
 
 
